@@ -26,6 +26,12 @@ struct Other<LinearSpace3fa>
   typedef LinearSpace3f type;
 };
 
+template <>
+struct Other<LinearSpace3<vec3d>>
+{
+  typedef LinearSpace3<vec3d> type;
+};
+
 inline ref::M madd_(const ref::M &A, const ref::M &B, LD sb)
 {
   ref::M o = A;
@@ -86,6 +92,7 @@ inline LinearSpace3<V3> bump(const LinearSpace3<V3> &m, int col)
 inline void bumpv(vec2f &v) { v.y += 1.f; }
 inline void bumpv(vec3f &v) { v.z += 1.f; }
 inline void bumpv(vec3fa &v) { v.z += 1.f; }
+inline void bumpv(vec3d &v) { v.z += 1.0; }
 
 inline const char *tf(bool b) { return b ? "true" : "false"; }
 
@@ -225,7 +232,7 @@ inline void check_affine_ops(Rep &R, const Case &c, const Pre &a, const ref::V &
     const ref::V pt = points(n)[0];
     const V xv = Mk<V>::v(pt);
     R.cmpV(c, "after A*=B, A applied to x = old A applied to (B applied to x)", "", rv(applyA(x, xv)), rv(applyA(m, applyA(mb, xv))), n,
-        tolr<S>(kap, a.fA * (b.fA * ref::norm(pt) + ns) + nt));
+        tolx<S>(kap, a.fA * (b.fA * ref::norm(pt) + ns) + nt));
   }
   {
     bool same = ref::norm(ref::sub(t, sft)) == 0;
